@@ -277,14 +277,8 @@ impl Opts {
             },
             rustfmt: self.rustfmt,
             validate: match self.validate.as_str() {
-                "none" => None,
-                "nof64" => Some(ValidationOptions {
-                    capabilities: WgslCapabilities::all() - WgslCapabilities::FLOAT64,
-                }),
-                "empty" => Some(ValidationOptions {
-                    capabilities: WgslCapabilities::empty(),
-                }),
-                _ => Some(ValidationOptions::default()),
+                "all" => Some(ValidationOptions::default()),
+                v => crate::oracle::caps_of(v).map(|capabilities| ValidationOptions { capabilities }),
             },
         }
     }
